@@ -33,6 +33,7 @@ var unique = map[tree.Path]indexer{}
 func init() {
 	unique["networks.*.labels"] = keyValueIndexer
 	unique["networks.*.ipam.options"] = keyValueIndexer
+	unique["volumes.*.labels"] = keyValueIndexer
 	unique["services.*.annotations"] = keyValueIndexer
 	unique["services.*.build.args"] = keyValueIndexer
 	unique["services.*.build.additional_contexts"] = keyValueIndexer
